@@ -429,7 +429,9 @@ def tr_for(st, env, fname):
             raise Untranslatable(f"{fname}: class-copy loop body")
         return ["CopyAtomClasses"]
     # RDKit chiral centres
-    if tgt_is(st.target, "atom, _") and is_expr(st.iter, "Chem.FindMolChiralCenters(rdkit_mol)"):
+    legacy = is_expr(st.iter, "Chem.FindMolChiralCenters(rdkit_mol)")
+    if tgt_is(st.target, "atom, _") and (legacy or is_expr(st.iter, "Chem.FindMolChiralCenters(rdkit_mol, useLegacyImplementation=False)")):
+        env["__chiral_legacy"] = legacy     # which RDKit perception supplies the oracle r_chiral (harness makes the same call)
         if not stmts_are(body, ['molecule.graph.nodes[atom]["stereo"] = True']):
             raise Untranslatable(f"{fname}: chiral-centre loop body")
         return ["MarkStereo StRdkitChiral"]
@@ -633,6 +635,7 @@ def tr_init_organic(fn):
             pre += r
         else:
             body += r
+    tr_init_organic.chiral_legacy = env.get("__chiral_legacy", True)
     return pre, guards, body
 
 
@@ -769,7 +772,8 @@ def main():
         os.replace(_tmp, OUT)  # atomic: a concurrent coqc never sees a partial file
     return {"sha256": sha, "organic_pre": pre, "organic_guards": guards, "organic_body": body,
             "builtin_ops": bops, "calc_multiplicity": calc, "top": list(top),
-            "make_graph_defaults": [st_def, pi_def, copies], "origin_keeps_class": keeps}
+            "make_graph_defaults": [st_def, pi_def, copies], "origin_keeps_class": keeps,
+            "chiral_legacy": getattr(tr_init_organic, "chiral_legacy", True)}
 
 
 if __name__ == "__main__":
